@@ -46,6 +46,11 @@ def coq_diag(d):
 GOVER = "parse Go version"
 
 
+def norm_epos(s):
+    """-e: the frame around the text is specified up to white space, so line:column of the synthesized file `e` are not"""
+    return re.sub(r"\be:\d+(:\d+)?", "e:_", s) if s else s
+
+
 def coq_output(st):
     if st.get("panic"):
         return "PModelFail"
@@ -225,10 +230,10 @@ def run(c):
         rgbin = None
     e2e_results = []
 
-    def observe(n, seed, first=0, noreset=False, tag="main", e2e=0):
+    def observe(n, seed, first=0, noreset=False, tag="main", e2e=0, extra=()):
         tmp = os.path.join(c.work, "tmp-%s-%d-%d" % (tag, seed, first))
         os.makedirs(tmp, exist_ok=True)
-        args = ["-n", str(n), "-seed", str(seed), "-first", str(first), "-tmp", tmp]
+        args = ["-n", str(n), "-seed", str(seed), "-first", str(first), "-tmp", tmp] + list(extra)
         if e2e and rgbin:
             args += ["-e2e", rgbin, "-e2en", str(e2e), "-fakedir", os.path.join(c.verif, "harness", "fake"),
                      "-reposum", os.path.join(c.repo, "go.sum")]
@@ -257,6 +262,10 @@ def run(c):
     def prepare(sc):
         """Python-side bookkeeping: which error newEngine returns at each step, ordering of a cold failing burst."""
         steps = sc["steps"]
+        if sc["mode"] == "e":
+            sc["direct_err"] = {k: norm_epos(v) for k, v in sc["direct_err"].items()}
+            for st in steps:
+                st["err_raw"], st["err"] = st["err"], norm_epos(st["err"])
         # cold burst: the goroutine that performed the (failing) load comes first
         if steps and steps[0]["kind"] == "par":
             npar = 0
@@ -341,12 +350,18 @@ def run(c):
                     return {"step": j}
                 st = steps[j]
                 return {"step": j, "kind": st["kind"], "pkg": st["pkg"], "rules_version_on_disk": st["version"],
-                        "err": st["err"], "diags": st["diags"][:6], "state": [st["has_engine"], st["errored"], st["pool"]]}
+                        "err": st.get("err_raw", st["err"]), "diags": st["diags"][:6], "state": [st["has_engine"], st["errored"], st["pool"]]}
+            def expected_of(j):
+                what = "one diagnostic per report of the enabled groups of the FIRST loaded rule set (decorated unless -e); a load error once"
+                if j >= len(steps):
+                    return what
+                if steps[0]["_lerr"] is not None:
+                    return {"rule": what, "load_error_on_the_first_pass": steps[0]["_lerr"]}
+                reps = (sc["direct"].get(str(sc["_loaded_version"])) or {}).get(steps[j]["pkg"]) or []
+                return {"rule": what, "reports_of_the_direct_engine_before_enable_disable": [[r["group"], r["pos"], r["msg"]] for r in reps][:8]}
             for j in s_out[:3]:
                 c.fail("oracle", "pass output differs from the direct engine's reports mapped by the specification",
-                       input=dict(inp, **stepinfo(j)),
-                       expected="one diagnostic per report of the enabled groups of the FIRST loaded rule set (decorated unless -e); a load error once",
-                       observed=stepinfo(j))
+                       input=dict(inp, **stepinfo(j)), expected=expected_of(j), observed=stepinfo(j))
             for j in s_st[:3]:
                 c.fail("oracle", "engine cache state after the pass differs from the specification", input=dict(inp, **stepinfo(j)),
                        expected="engine set after first successful load / sticky failure flag", observed=stepinfo(j))
@@ -434,6 +449,39 @@ def run(c):
         scs += observe(1, c.seed, first=1000 + k, noreset=True, tag="fresh")
     compare(scs, "main")
     check_e2e()
+
+    # every -e text of the pool once (the rule given on the command line has to be the rule that is loaded)
+    def e_sweep(seed, tag):
+        rc, out = c.run_harness(hb, ["-esweeplen", "1"], timeout=120)
+        try:
+            npool = int(out.strip().split("\n")[-1])
+        except ValueError:
+            c.obligation("harness-run:c19-esweeplen", False, out[-500:])
+            return
+        es = observe(npool, seed, first=5000, tag=tag, extra=["-esweep", "-par", "3"])
+        compare(es, tag)
+        ok_gen = True
+        npct = nrep = 0
+        for sc in es:
+            loads = "1" in sc["direct"]
+            if loads == bool(sc["e_broken"]):
+                ok_gen = False
+                c.obligation("generator:e-pool[%d]" % sc["esweep"], False,
+                             "the direct engine %s the -e text %r" % ("loads" if loads else "rejects: %r" % sc["direct_err"], sc["flags"]["e"]))
+            nd = sum(len(v or []) for v in (sc["direct"].get("1") or {}).values())
+            if loads and nd == 0:
+                ok_gen = False
+                c.obligation("generator:e-pool[%d]" % sc["esweep"], False, "the -e text %r matches nothing in the targets" % sc["flags"]["e"])
+            if "%" in sc["flags"]["e"] and any(st["diags"] for st in sc["steps"]):
+                npct += 1
+            if any(st["diags"] for st in sc["steps"]):
+                nrep += 1
+        c.coverage["e_texts"] = c.coverage.get("e_texts", 0) + len(es)
+        c.coverage["e_texts_with_percent_delivering_diagnostics"] = c.coverage.get("e_texts_with_percent_delivering_diagnostics", 0) + npct
+        c.coverage["e_texts_delivering_diagnostics"] = c.coverage.get("e_texts_delivering_diagnostics", 0) + nrep
+        if ok_gen:
+            c.obligation("generator:e-pool", True, "%d texts: every one loads / is rejected by the direct engine as the pool says; the loading ones match target nodes" % len(es))
+    e_sweep(c.seed, "esweep")
 
     def search():
         compare(observe(240, c.seed + 17, tag="search", e2e=20), "search")
